@@ -156,6 +156,11 @@ Definition push_map (c : option frame) (m : tmap) (flag : bool) : option frame :
 
 Definition mk_map (x : id) (t : ty) : tmap := if is_never t then None else Some [(x, t)].
 
+(* identity / isinstance tests put a binder entry only when they change the type (conditional_types returns
+   `None` = "no new information" otherwise); truthiness tests always put one *)
+Definition mk_map_chg (P : prog) (x : id) (t t' : ty) : tmap :=
+  if ty_same P t' t then Some [] else mk_map x t'.
+
 Definition in_dom {A} (x : id) (m : list (id * A)) : bool :=
   match lookup m x with Some _ => true | None => false end.
 
@@ -277,13 +282,13 @@ Fixpoint infer (P : prog) (sm : bool) (d : decls) (fr : frame) (e : expr) {struc
   | EIsNone e1 =>
       bind (infer P sm d fr e1) (fun x1 =>
         match e1 with
-        | EVar x => Ok (TBool, (mk_map x (none_part (fst x1)), mk_map x (remove_none P (fst x1))))
+        | EVar x => Ok (TBool, (mk_map_chg P x (fst x1) (none_part (fst x1)), mk_map_chg P x (fst x1) (remove_none P (fst x1))))
         | _ => Ok (TBool, (Some [], Some []))
         end)
   | EIsNotNone e1 =>
       bind (infer P sm d fr e1) (fun x1 =>
         match e1 with
-        | EVar x => Ok (TBool, (mk_map x (remove_none P (fst x1)), mk_map x (none_part (fst x1))))
+        | EVar x => Ok (TBool, (mk_map_chg P x (fst x1) (remove_none P (fst x1)), mk_map_chg P x (fst x1) (none_part (fst x1))))
         | _ => Ok (TBool, (Some [], Some []))
         end)
   | EIsInst e1 k =>
@@ -291,7 +296,8 @@ Fixpoint infer (P : prog) (sm : bool) (d : decls) (fr : frame) (e : expr) {struc
         if cref_ok P k then
           match e1 with
           | EVar x => bind (narrow_isinst P sm (fst x1) k) (fun yn =>
-                        Ok (TBool, (mk_map x (fst yn), mk_map x (snd yn))))
+                        Ok (TBool, ((match fst x1 with TUnion _ => mk_map x (fst yn) | _ => mk_map_chg P x (fst x1) (fst yn) end),
+                                    mk_map x (snd yn))))
           | _ => Ok (TBool, (Some [], Some []))
           end
         else Rej None)
